@@ -1,17 +1,9 @@
 (* C04, pattern simulation: eval_pattern computes, bit by bit, the denotation of the gate
    type (every width); max_pattern - x is complement; _generate_inputs_tt lists the
    projection truth tables. *)
-Require Import Cirbo.Model.Base Cirbo.Model.Gate Cirbo.Model.Den.
+Require Import Cirbo.Model.Base Cirbo.Model.Gate Cirbo.Model.Den Cirbo.Model.ConeSem.
 Require Import Cirbo.Generated.GateTypes Cirbo.Generated.PatternOps Cirbo.Proofs.PatternBits.
 Open Scope N_scope.
-
-(* the operand count eval_pattern reads for each type it supports *)
-Definition pattern_arity (t : gtype) : option nat :=
-  match t with
-  | NOT => Some 1%nat
-  | AND | NAND | OR | NOR | XOR | NXOR | GEQ | LT | LEQ | GT => Some 2%nat
-  | _ => None
-  end.
 
 Lemma max_pattern_eq n : max_pattern n = 2 ^ (2 ^ n) - 1.
 Proof. unfold max_pattern. rewrite !N.shiftl_1_l. reflexivity. Qed.
